@@ -6,6 +6,7 @@ import AvroModel.Impl.DecimalLib
 import AvroModel.Impl.Ocf
 import AvroModel.Impl.OcfHeader
 import AvroModel.Spec.Ocf
+import AvroModel.Spec.Observe
 open Avro Avro.Impl Driver
 
 def Driver.ExtTable.toDenExt (t : ExtTable) : Spec.DenExt :=
@@ -132,6 +133,43 @@ def runC11 : P String := do
       | [] => "ok"
       | k :: rest => if rest.all (· == k) then "ok" else "VIOLATION slice and streamed input decode differently"
     pure (" ; ".intercalate (rs.map fmtDe) ++ " # " ++ verdict)
+
+/-- `rt <allowSlow> <schema> <sv> [ext]`: a conforming value in a branch-determining presentation
+    is serialized, then deserialized by a dynamically typed target. Oracle (C01): serialization
+    succeeds, the bytes decode (specification) to a value `v` the presentation denotes, and the
+    target receives exactly `observe v`. -/
+def runRt : P String := do
+  let allowSlow := (← pNat) ≠ 0
+  let sm ← pSchemaMut
+  let sv ← pSV
+  let ext ← pExtEntries {}
+  let S := freezeNodes sm
+  match S[0]? with
+  | none => pure "noroot"
+  | some root =>
+    let (r, st) := ser ext.toExt allowSlow S root sv {}
+    match r with
+    | .error .panic => pure "panic # VIOLATION panic"
+    | .error _ => pure "err # VIOLATION a conforming value in a branch-determining presentation was rejected"
+    | .ok _ =>
+      let bs := st.out
+      let dres := deOne {} S root 64 .any { rest := bs }
+      let verdict :=
+        if !schemaNamesDistinct S then "n/a duplicate field names or symbols" else
+        match Spec.decode S (4 * bs.length + 4 * S.size + 64) root bs with
+        | some (v, []) =>
+          if !Spec.denotes ext.toDenExt S root sv v then "VIOLATION bytes decode to a value the presentation does not denote"
+          else
+            (match dres, Spec.observe S root v with
+            | .ok (o, 0), some expected =>
+              if outToString o = outToString expected then "ok"
+              else "VIOLATION the value read back differs from the value written"
+            | .ok _, none => "n/a decimal outside the documented limits"
+            | .ok (_, _), some _ => "VIOLATION deserialization left bytes unread"
+            | .error _, some _ => "VIOLATION the bytes written do not read back"
+            | .error _, none => "n/a decimal outside the documented limits")
+        | _ => "VIOLATION Ok(bytes) but the bytes do not decode under the specification"
+      pure s!"ok {bytesToHex bs} | {fmtDe dres} # {verdict}"
 
 /-! ### Container writer histories -/
 
@@ -402,6 +440,7 @@ def dispatch (line : String) : String :=
       | "crc" => some runCrc
       | "de" => some runDe
       | "c11" => some runC11
+      | "rt" => some runRt
       | "ocfw" => some runOcfw
       | "ocfr" => some runOcfr
       | "ocfd" => some (pure "rust-judged")
